@@ -31,7 +31,8 @@ class C05Struct(Scenario):
         if r < 94:
             chans = self.sub.channels
             st = {"op": "restart", "chan": rng.choice(chans), "dir": rng.choice(seams.Scratch.DIRS),
-                  "style": rng.choice(STYLES), "stale": rng.chance(1, 3),
+                  "style": rng.choice(STYLES), "stale": rng.chance(1, 3), "variant": rng.below(3),
+                  "load_style": rng.choice(STYLES + ("link", "link")),
                   "chdir": rng.choice(seams.Scratch.DIRS) if rng.chance(1, 3) else None}
             if ff:
                 st.update({"chan": "bytes" if "bytes" in chans else chans[0], "dir": "a", "style": "abs", "stale": False,
@@ -108,8 +109,14 @@ class C05Struct(Scenario):
         if step["chdir"] is not None and chan == "path":
             scr.chdir(step["chdir"])
             ctx.fault("cwd_change")
+        sub.variant = step.get("variant", 0)
+        load_style = step.get("load_style", step["style"]) if sub.name != "BloomFilterOnDisk" else step["style"]
+        if load_style == "link":
+            ctx.fault("path_style_link")
+        if sub.variant and chan in ("bytes", "fileobj"):
+            ctx.fault("byteslike_" + ("bytearray", "memoryview")[sub.variant - 1])
         try:
-            g = sub.load(payloads[chan], chan, where, step["style"])
+            g = sub.load(payloads[chan], chan, where, load_style)
         except Exception as e:
             raise Violation("load_failed", f"{sub.name}: loading its own export over {chan} raised "
                                            f"{type(e).__name__}: {e}", sig)
